@@ -11,7 +11,8 @@ RULE = ("synthesised histories (0-40 commits, 1-5 authors, 1-12 live files) of a
         "operations over file identities, renames printed in git's brace and full-path notations (incl. "
         "moves into / out of a directory, to the root, chains of renames), delete-then-recreate, repeated "
         "touches, ties in the sort keys, conventional and plain commit messages; non-trivial = at least one "
-        "rename or delete; distinct = distinct input")
+        "rename or delete; distinct = distinct input"
+        '; a wide_repo stream: histories with 17-27 files and authors materialised as real repositories and read through the tables of `coca git -b`, `-t`, `-o` (no -f)')
 TRUSTED_BASE = ["modelled, not verified: Go regexp (hand-compiled scanners in Lib/Scan.v), sort.Slice (stable "
                 "insertion sort in the model; rows compared as sequences of keys and multisets inside tie groups), "
                 "time.Parse on YYYY-MM-DD dates"]
